@@ -25,14 +25,55 @@ def _is_node_ptr(f, e):
     return r == NODE and d == 1
 
 
+def _direct_compare(x):
+    if x.get('kind') == 'CallExpr':
+        c = strip(children(x)[0])
+        return c.get('kind') == 'MemberExpr' and c.get('name') == 'compare'
+    return False
+
+
+def comparator_wrappers(prog):
+    """Thin static wrappers of the comparator: the body is a single `return X->compare(...)` whose arguments are the
+    wrapper's parameters or fields of them.  name -> (function, inner argument list)."""
+    cache = getattr(prog, '_cmp_wrappers', None)
+    if cache is not None:
+        return cache
+    out = {}
+    for f in prog.funcs_in(UNIT):
+        if not f.static or f.body is None:
+            continue
+        stmts = [c for c in children(f.body) if c.get('kind') not in ('NullStmt',)]
+        if len(stmts) != 1 or stmts[0].get('kind') != 'ReturnStmt' or not children(stmts[0]):
+            continue
+        e = strip(children(stmts[0])[0])
+        if _direct_compare(e):
+            out[f.name] = (f, children(e)[1:])
+    prog._cmp_wrappers = out
+    return out
+
+
 def comparator_calls(prog, f):
-    """Calls through the `compare` method field: list of (call, args)."""
+    """Calls through the `compare` method field, directly or through a thin wrapper (comparator_wrappers): list of
+    (call, args) where args are the comparator's arguments (a wrapper's parameters replaced by the actuals)."""
     out = []
+    wr = comparator_wrappers(prog)
     for x in walk(f.body):
         if x.get('kind') == 'CallExpr':
-            c = strip(children(x)[0])
-            if c.get('kind') == 'MemberExpr' and c.get('name') == 'compare':
+            if _direct_compare(x):
                 out.append((x, children(x)[1:]))
+                continue
+            nm = prog.callee_name(x)
+            if nm in wr and nm != f.name:
+                wf, inner = wr[nm]
+                actual = dict(zip([p.get('name') for p in wf.params], children(x)[1:]))
+                args = []
+                for a in inner:
+                    sa = strip(a)
+                    if sa.get('kind') == 'DeclRefExpr' and canon(sa) in actual:
+                        args.append(actual[canon(sa)])
+                    else:
+                        args.append(a)
+                out.append((x, args))
     return out
 
 
@@ -278,6 +319,43 @@ def restructurers(prog):
     return res, identity
 
 
+def _local_alias(f, arg, call):
+    """`arg` is a single-assignment local initialised from a link (`T *right = obj->right;`) and neither that link nor its
+    base variable is assigned between the declaration and the call: the link's spelling, else None."""
+    a = strip(arg)
+    if a.get('kind') != 'DeclRefExpr':
+        return None
+    if (a.get('_ref') or ('',))[0] != 'local':
+        return None
+    nm = canon(a)
+    if nm in [p.get('name') for p in f.params]:
+        return None
+    decl = None
+    for x in walk(f.body):
+        if x.get('kind') == 'VarDecl' and x.get('name') == nm:
+            if decl is not None:
+                return None
+            decl = x
+    if decl is None or var_init(decl) is None:
+        return None
+    init = strip(var_init(decl))
+    if init.get('kind') != 'MemberExpr' or init.get('name') not in ('left', 'right'):
+        return None
+    link = canon(init)
+    base = canon(children(init)[0]) if children(init) else None
+    l0, l1 = decl.get('_line') or 0, call.get('_line') or 0
+    for x in walk(f.body):
+        if x.get('kind') == 'BinaryOperator' and x.get('opcode') == '=':
+            lhs = canon(children(x)[0])
+            if lhs == nm:
+                return None
+            if lhs in (link, base) and l0 <= (x.get('_line') or 0) <= l1 and strip(children(x)[1]) is not call:
+                return None
+        elif x.get('kind') == 'UnaryOperator' and x.get('opcode') == '&' and canon(children(x)[0]) == nm:
+            return None
+    return link
+
+
 def rule_t3(prog, rep, rid='T3'):
     rep.rule(rid, 'the subtree root returned by a rotation/fix-up/recursive insert or delete is stored back into the link (or '
                   'variable) that supplied the argument, or returned')
@@ -294,6 +372,7 @@ def rule_t3(prog, rep, rid='T3'):
             if not node_args:
                 continue
             src = canon(node_args[0])
+            src = _local_alias(f, node_args[0], x) or src
             rep.instance(rid)
             p = par.get(id(x))
             while p is not None and p.get('kind') in ('ImplicitCastExpr', 'ParenExpr', 'CStyleCastExpr'):
@@ -450,34 +529,8 @@ def rule_t5(prog, rep, rid='T5'):
             continue
         for (n, x, var) in climbs:
             rep.instance(rid)
-            # (b) reset on every path from entry to the climb
-            def is_reset(m):
-                if not isinstance(m.ast, dict) or m.kind == 'macro':
-                    return False
-                for y in walk(m.ast):
-                    if y.get('kind') == 'BinaryOperator' and y.get('opcode') == '=':
-                        l = strip(children(y)[0])
-                        if l.get('kind') == 'MemberExpr' and l.get('name') == 'next' and canon(l).endswith('->root->next') \
-                                and is_null(children(y)[1]):
-                            return True
-                    if y.get('kind') == 'CallExpr' and prog.callee_name(y) in resetters:
-                        return True
-                return False
-
-            def skip(m, lab):
-                # continuation of a walk: the branch on which the caller's cursor already carries a parent link
-                if m.kind == 'cond' and isinstance(m.ast, dict):
-                    t = cond_null_test(m.ast)
-                    if t and t[0].endswith('->next') and not t[0].endswith('root->next'):
-                        r0 = t[0].split('->')[0]
-                        if any(p.get('name') == r0 for p in f.params):
-                            # non-NULL branch = continuation path (exempt by contract)
-                            return (lab == 'T') != t[1]
-                    # an empty tree has nothing to climb
-                    if t and t[0].endswith('->root') and ((lab == 'T') == t[1]):
-                        return True
-                return False
-            path = _path_to(f.cfg, n, is_reset, skip)
+            # (b) reset on every path from entry to the climb (for a static helper: on every path to each of its call sites)
+            path = _unreset_path(prog, f, n, resetters)
             ok = path is None
             rep.oblige(rid, ok, {'function': f.name, 'climb': canon(x), 'line': x.get('_line')})
             if not ok:
@@ -522,6 +575,72 @@ def rule_t5(prog, rep, rid='T5'):
                             rep.violation(rid, f, x.get('_line'), 'descent:%s' % rs.get('name'),
                                           'the descent %s does not record the parent in %s first: the later climb follows '
                                           'a stale link' % (canon(x), want))
+
+
+_RD_CACHE = {}
+
+
+def _unreset_path(prog, f, n, resetters, depth=0):
+    """A path from f's entry to node n on which the root's parent link is not cleared (None if there is none).  Paths on
+    which the caller's cursor already carries a parent link (continuation of a walk) or the tree is empty are exempt.  For
+    a static helper the obligation moves to its call sites: cleared on every path to each of them."""
+    from .dataflow import ReachingDefs, canon_subst
+    rd = _RD_CACHE.get(id(f))
+    if rd is None:
+        rd = _RD_CACHE[id(f)] = ReachingDefs(f)
+
+    def is_reset(m):
+        if not isinstance(m.ast, dict) or m.kind == 'macro':
+            return False
+        for y in walk(m.ast):
+            if y.get('kind') == 'BinaryOperator' and y.get('opcode') == '=':
+                l = strip(children(y)[0])
+                if l.get('kind') == 'MemberExpr' and l.get('name') == 'next' and canon(l).endswith('->root->next') \
+                        and is_null(children(y)[1]):
+                    return True
+            if y.get('kind') == 'CallExpr' and prog.callee_name(y) in resetters:
+                return True
+        return False
+
+    def skip(m, lab):
+        if m.kind == 'cond' and isinstance(m.ast, dict):
+            t = cond_null_test(m.ast)
+            if t:
+                tp = t[0]
+                if '->' not in tp:
+                    # a local holding the caller's cursor link (`T *cursor = obj->next; if (cursor == NULL)`)
+                    for y in walk(m.ast):
+                        if y.get('kind') == 'DeclRefExpr' and canon(y) == tp and (y.get('_ref') or ('',))[0] == 'local':
+                            tp = canon_subst(rd, m.id, y)
+                            break
+                if tp.endswith('->next') and not tp.endswith('root->next'):
+                    r0 = tp.split('->')[0]
+                    if any(p.get('name') == r0 for p in f.params):
+                        # non-NULL branch = continuation path (exempt by contract)
+                        return (lab == 'T') != t[1]
+                # an empty tree has nothing to climb
+                if tp.endswith('->root') and ((lab == 'T') == t[1]):
+                    return True
+        return False
+    path = _path_to(f.cfg, n, is_reset, skip)
+    if path is None:
+        return None
+    if f.static and depth < 3:
+        sites = []
+        for g in prog.funcs_in(UNIT):
+            if g.body is None or g is f:
+                continue
+            for m in g.cfg.nodes:
+                if m.id in g.cfg.reachable and isinstance(m.ast, dict) and m.kind != 'macro' and any(
+                        y.get('kind') == 'CallExpr' and prog.callee_name(y) == f.name for y in walk(m.ast)):
+                    sites.append((g, m))
+        if sites:
+            for (g, m) in sites:
+                p2 = _unreset_path(prog, g, m, resetters, depth + 1)
+                if p2 is not None:
+                    return p2 + path
+            return None
+    return path
 
 
 def _path_to(cfg, target, pred, skip_edge=None, restart_at_loopheads=False):
@@ -611,32 +730,10 @@ def rule_t5c(prog, rep, rid='T5c'):
         if not stores:
             continue
 
-        def is_reset(m):
-            if not isinstance(m.ast, dict) or m.kind == 'macro':
-                return False
-            for y in walk(m.ast):
-                if y.get('kind') == 'BinaryOperator' and y.get('opcode') == '=':
-                    l = strip(children(y)[0])
-                    if l.get('kind') == 'MemberExpr' and l.get('name') == 'next' and canon(l).endswith('->root->next') and is_null(children(y)[1]):
-                        return True
-                if y.get('kind') == 'CallExpr' and prog.callee_name(y) in resetters:
-                    return True
-            return False
-
-        def skip(m, lab):
-            if m.kind == 'cond' and isinstance(m.ast, dict):
-                t = cond_null_test(m.ast)
-                if t and t[0].endswith('->next') and not t[0].endswith('root->next'):
-                    r0 = t[0].split('->')[0]
-                    if any(p.get('name') == r0 for p in f.params):
-                        return (lab == 'T') != t[1]          # continuation of a walk (exempt by contract)
-                if t and t[0].endswith('->root') and ((lab == 'T') == t[1]):
-                    return True                               # empty tree
-            return False
         rep.instance(rid)
         bad = None
         for (n, x) in stores:
-            path = _path_to(f.cfg, n, is_reset, skip)
+            path = _unreset_path(prog, f, n, resetters)
             if path is not None:
                 bad = (n, x)
                 break
